@@ -60,6 +60,18 @@ func AddHooks(ctx *core.Context, cronner Cronner, state core.State) error {
 		}
 
 		if schedule == "" {
+			// The id might currently hold a scheduled rule,
+			// which this fact is about to replace.  Nobody
+			// else will unschedule that rule.
+			if cronner != nil && !loading {
+				if old, _ := state.Get(ctx, id); old != nil {
+					if was, _ := getSchedule(ctx, old); was != "" {
+						if _, err = cronner.Rem(ctx, id); err != nil {
+							return err
+						}
+					}
+				}
+			}
 			return nil
 		}
 
